@@ -154,4 +154,29 @@ theorem req_pre (q : Req σ) (h : q.admitted) : Pre (q.prog .rw) ∧ (q.prog .rw
   | bget q => exact bget_pre q h
   | bdel q => exact bdel_pre q h
   | upost q => exact upost_pre q h
+
+/-- what an accepted push without subject does to the index of its repository, run alone -/
+theorem put_alone_index [DecidableEq σ.R] (L : Ideal σ) (q : PutReq σ) (h1 : q.pre = none) (h2 : q.early = none)
+    (h3 : q.refAdd = none) (h4 : ∀ g ∈ q.refs, (L.rd q.r g).isSome) (s : σ.S) :
+    ∃ ix, σ.index ((put .rw q).alone s).1 q.r = L.add ix q.entry q.children := by
+  have hcommit : ∀ s', σ.index ((putCommit .rw q).alone s').1 q.r = L.add (σ.index (σ.blobCreate s' q.r q.g q.c) q.r) q.entry q.children := by
+    intro s'
+    simp only [putCommit, withW, h3, Prog.alone]
+    rw [L.index_insert]; simp
+  have hcheck : ∀ (gs : List σ.G), (∀ g ∈ gs, (L.rd q.r g).isSome) → ∀ s', ∃ s'', (putCheck .rw q gs true).alone s' = (putCommit .rw q).alone s'' := by
+    intro gs
+    induction gs with
+    | nil => intro _ s'; exact ⟨s', rfl⟩
+    | cons g gs ih =>
+      intro hg s'
+      simp only [putCheck, Prog.alone, L.read_eq]
+      have : (L.rd q.r g).isSome = true := hg g (by simp)
+      rw [this]
+      exact ih (fun g' hg' => hg g' (by simp [hg'])) _
+  obtain ⟨s'', hs''⟩ := hcheck q.refs h4 (σ.repoGet s q.r)
+  have : (put .rw q).alone s = (putCommit .rw q).alone s'' := by
+    simp only [put, h1, h2, Prog.alone]
+    exact hs''
+  exact ⟨_, by rw [this]; exact hcommit s''⟩
+
 end Conc
